@@ -267,8 +267,16 @@ PROMO_SOUND = SND + """proof {
             }
         }""" % {'FR': FR}
 PROMO_CMP = CMP + """proof {
+            %(FR)s
+            assert forall|i: int| pre_len <= i < new_moves@.len() implies legal_from(board, move_of(#[trigger] &new_moves@[i]), move_generation_mode) by {
+                let s = &new_moves@[i];
+                assert(gen_sound(board, s, square_cords));
+                assert(king_sq(s, color) == king_after(board, fr, fc, tr, tc));
+                assert(safe_after(board, fr, fc, tr, tc, s.pawn_promotion));
+                assert(legal_step(board, fr, fc, mov, s.pawn_promotion, move_generation_mode));
+            }
             lemma_step_push4(board, square_cords, moves@, __i - 1, pre, new_moves@, %(LO)s, color);
-        }""" % {'LO': LO}
+        }""" % {'LO': LO, 'FR': FR}
 
 GMFP_INV = [
     '__i <= moves@.len()',
@@ -283,6 +291,7 @@ GMFP_INV = [
     CMP + 'forall|i: int| 0 <= i < moves@.len() ==> pseudo_target(board, square_cords.0 as int, square_cords.1 as int, #[trigger] moves@[i], move_generation_mode)',
     CMP + 'forall|t: Point| #[trigger] pseudo_target(board, square_cords.0 as int, square_cords.1 as int, t, move_generation_mode) ==> exists|j: int| 0 <= j < moves@.len() && #[trigger] moves@[j] == t',
     CMP + 'step_inv(board, square_cords, moves@, __i as int, new_moves@, old(new_moves)@.len() as int)',
+    CMP + 'forall|i: int| old(new_moves)@.len() <= i < new_moves@.len() ==> legal_from(board, move_of(#[trigger] &new_moves@[i]), move_generation_mode)',
 ]
 GMFP = {
     'body_start': 'broadcast use axiom_boardstate_clone;',
@@ -294,8 +303,11 @@ GMFP = {
         SND + 'forall|i: int| old(new_moves)@.len() <= i < final(new_moves)@.len() ==> gen_sound(board, #[trigger] &final(new_moves)@[i], square_cords)',
         # C05: the incremental key of each successor is its from-scratch key
         KEY + 'forall|i: int| old(new_moves)@.len() <= i < final(new_moves)@.len() ==> key_ok(#[trigger] &final(new_moves)@[i], zobrist_hasher)',
-        # C01/C13 completeness for ordinary moves
-        CMP + 'forall|t: Point, promo: Option<Piece>| #[trigger] legal_step(board, square_cords.0 as int, square_cords.1 as int, t, promo, move_generation_mode) ==> has_succ(final(new_moves)@, old(new_moves)@.len() as int, square_cords, t, promo)',
+        # C01/C13: the appended successors are exactly the legal (capturing) non-castling moves of this piece --
+        # no illegal move, no legal move missing, no move twice
+        CMP + 'forall|i: int| old(new_moves)@.len() <= i < final(new_moves)@.len() ==> (#[trigger] final(new_moves)@[i]).last_move is Some && move_of(&final(new_moves)@[i]).0 == square_cords && legal_from(board, move_of(&final(new_moves)@[i]), move_generation_mode)',
+        CMP + 'forall|m: Mv| m.0 == square_cords && #[trigger] legal_from(board, m, move_generation_mode) ==> has_move(final(new_moves)@, old(new_moves)@.len() as int, m)',
+        CMP + 'distinct_moves(final(new_moves)@, old(new_moves)@.len() as int)',
     ],
     'after_text': [
         ('new_moves.push(new_board);', 0, CMP + """proof {
@@ -370,6 +382,14 @@ GMFP = {
                     lemma_key_component(kp(s, h), ks(s, h), kc1(s, h), kc2(s, h), kc3(s, h), kc4(s, h), 0u64, e);
                     assert(key_ok(s, h));
                 }"""),
+        ('new_moves.push(new_board);', 0, CMP + """proof {
+            %(FR)s
+            let s = &new_board;
+            assert(king_sq(s, color) == king_after(board, fr, fc, tr, tc));
+            assert(safe_after(board, fr, fc, tr, tc, s.pawn_promotion));
+            assert(legal_step(board, fr, fc, mov, s.pawn_promotion, move_generation_mode));
+            assert(legal_from(board, move_of(s), move_generation_mode));
+        }""" % {'FR': FR}),
         ('new_moves.push(new_board);', 0, SND + """proof {
             %(FR)s
             let s = &new_board;
@@ -391,7 +411,24 @@ GMFP = {
             assert(succ_ok(board, s, fr, fc, tr, tc));
             assert(gen_sound(board, s, square_cords));
         }""" % {'FR': FR}),
-        ('// take care of en passant captures', 0, 'let ghost after_loop = new_moves@;'),
+        ('// take care of en passant captures', 0, 'let ghost after_loop = new_moves@; let ghost mut ep_try: Option<Point> = None; let ghost mut ep_safe: bool = false;'),
+        ('if let Some(mov) = en_passant {', 0, CMP + """proof {
+            // the probe answers None only when no en-passant capture exists for this pawn (its rank follows from ep_ok)
+            if en_passant is None {
+                assert forall|t: Point| !ep_move(board, square_cords.0 as int, square_cords.1 as int, t) by {
+                    if ep_geom(board.pawn_double_move, board.to_move, square_cords.0 as int, square_cords.1 as int, t) { assert(ep_ok(board)); }
+                }
+            }
+        }"""),
+        ('if !is_check(&new_board, board.to_move) {', 0, CMP + """proof {
+            %(FR)s
+            ep_try = Some(mov);
+            assert(ep_move(board, fr, fc, mov));
+            assert(is_ep_capture(board, fr, fc, tr, tc));
+            assert(new_board.board == after_board(board, fr, fc, tr, tc, None));
+            assert(king_sq(&new_board, board.to_move) == king_after(board, fr, fc, tr, tc));
+            ep_safe = safe_after(board, fr, fc, tr, tc, None);
+        }""" % {'FR': FR}),
     ],
     'loops': {0: {'invariant': GMFP_INV, 'decreases': 'moves@.len() - __i',
                   'body_start': 'broadcast use axiom_boardstate_clone; let ghost pre = new_moves@;',
@@ -404,12 +441,50 @@ GMFP = {
         }
     }""" % {'LO': LO}}},
     'at_end': CMP + """proof {
-        let lo = %(LO)s;
-        assert forall|t: Point, promo: Option<Piece>| #[trigger] legal_step(board, square_cords.0 as int, square_cords.1 as int, t, promo, move_generation_mode)
-            implies has_succ(new_moves@, lo, square_cords, t, promo) by {
-            assert(has_succ(after_loop, lo, square_cords, t, promo));
-            let i = choose|i: int| lo <= i < after_loop.len() && #[trigger] is_succ(&after_loop[i], square_cords, t, promo);
-            assert(new_moves@[i] == after_loop[i]); assert(is_succ(&new_moves@[i], square_cords, t, promo));
+        let lo = %(LO)s; let v = new_moves@; let fr = square_cords.0 as int; let fc = square_cords.1 as int;
+        let n0 = after_loop.len() as int;
+        assert(prefix_kept(after_loop, v));
+        // what the en-passant block did: nothing, or exactly one more successor
+        assert(v.len() == n0 || (v.len() == n0 + 1 && ep_try is Some && ep_safe && v[n0].last_move == Some((square_cords, ep_try.unwrap())) && v[n0].pawn_promotion is None));
+        assert(ep_try is Some ==> ep_move(board, fr, fc, ep_try.unwrap()) && (ep_safe == safe_after(board, fr, fc, ep_try.unwrap().0 as int, ep_try.unwrap().1 as int, None)) && (ep_safe ==> v.len() == n0 + 1));
+        assert(ep_try is None ==> forall|t: Point| !ep_move(board, fr, fc, t));
+        // every appended successor is a legal move of this piece
+        assert forall|i: int| lo <= i < v.len() implies (#[trigger] v[i]).last_move is Some && move_of(&v[i]).0 == square_cords && legal_from(board, move_of(&v[i]), move_generation_mode) by {
+            if i < n0 {
+                assert(v[i] == after_loop[i]);
+                assert(from_earlier(&after_loop[i], square_cords, moves@, moves@.len() as int));
+            } else {
+                assert(legal_ep(board, fr, fc, ep_try.unwrap(), None));
+            }
+        }
+        // every legal move of this piece was appended
+        assert forall|m: Mv| m.0 == square_cords && #[trigger] legal_from(board, m, move_generation_mode) implies has_move(v, lo, m) by {
+            if legal_step(board, fr, fc, m.1, m.2, move_generation_mode) {
+                assert(has_succ(after_loop, lo, square_cords, m.1, m.2));
+                let i = choose|i: int| lo <= i < after_loop.len() && #[trigger] is_succ(&after_loop[i], square_cords, m.1, m.2);
+                assert(v[i] == after_loop[i]);
+                assert(v[i].last_move is Some && move_of(&v[i]) == m);
+            } else {
+                assert(legal_ep(board, fr, fc, m.1, m.2));
+                assert(ep_try == Some(m.1));
+                assert(v[n0].last_move is Some && move_of(&v[n0]) == m);
+            }
+        }
+        // no move twice: the loop's successors are pairwise different, and the en-passant target is an empty square on
+        // another file, which no pseudo-legal pawn target is
+        assert(distinct_moves(v, lo)) by {
+            assert forall|i: int, j: int| lo <= i < j < v.len() implies move_of(&v[i]) != move_of(&v[j]) by {
+                assert(v[i] == after_loop[i]);
+                assert(from_earlier(&after_loop[i], square_cords, moves@, moves@.len() as int));
+                if j < n0 {
+                    assert(v[j] == after_loop[j]);
+                    assert(from_earlier(&after_loop[j], square_cords, moves@, moves@.len() as int));
+                } else {
+                    let k = choose|k: int| 0 <= k < moves@.len() && after_loop[i].last_move == Some((square_cords, #[trigger] moves@[k]));
+                    assert(target_ok(board, fr, fc, moves@[k]));
+                    assert(ep_ok(board));
+                }
+            }
         }
     }""" % {'LO': LO},
     'expect': {'loops': ['while'], 'returns': 0},
